@@ -18,7 +18,21 @@ import (
 //             8 = keys via AssembleKey().AssignNode(basic string node)
 //             9 = keys via AssembleKey().AssignNode(foreign string node)
 // scalars:    1 = AssignNode(basicnode scalar), 2 = AssignNode(foreign refnode scalar)
+// any:        10 = AssignNode(the node at the same position of a donor: an instance of the same value
+//                  built earlier by the same implementation — BuildRoutedDonor only)
 type Routes map[int]int
+
+// RouteDonor is the deviation "assign the donor's node at this position".
+const RouteDonor = 10
+
+// RouteOptionsWithDonor is RouteOptions plus the donor deviation at every position.
+func RouteOptionsWithDonor(v Val) [][]int {
+	out := RouteOptions(v)
+	for i := range out {
+		out[i] = append(append([]int(nil), out[i]...), RouteDonor)
+	}
+	return out
+}
 
 func ContainerRoutes(isMap bool) []int {
 	if isMap {
@@ -54,16 +68,45 @@ func RouteOptions(v Val) [][]int {
 }
 
 type router struct {
-	r   Routes
-	idx int
+	r     Routes
+	idx   int
+	donor bool // donor nodes are being tracked
+}
+
+func donorChild(d datamodel.Node, key string, index int, isMap bool) (c datamodel.Node) {
+	if d == nil {
+		return nil
+	}
+	defer func() {
+		if recover() != nil {
+			c = nil
+		}
+	}()
+	var err error
+	if isMap {
+		c, err = d.LookupByString(key)
+	} else {
+		c, err = d.LookupByIndex(int64(index))
+	}
+	if err != nil {
+		return nil
+	}
+	return c
 }
 
 func skip(v Val) int { return v.Size() }
 
-func (rt *router) assign(na datamodel.NodeAssembler, v Val) error {
+func (rt *router) assign(na datamodel.NodeAssembler, v Val, donor datamodel.Node) error {
 	my := rt.idx
 	rt.idx++
 	route := rt.r[my]
+	if route == RouteDonor {
+		if donor != nil && !donor.IsAbsent() {
+			rt.idx = my + skip(v)
+			return na.AssignNode(donor)
+		}
+		route = 0 // no donor node for this position: the default route
+	}
 	switch v.K {
 	case KList, KMap:
 		switch route {
@@ -96,8 +139,8 @@ func (rt *router) assign(na datamodel.NodeAssembler, v Val) error {
 			if err != nil {
 				return err
 			}
-			for _, c := range v.L {
-				if err := rt.assign(la.AssembleValue(), c); err != nil {
+			for i, c := range v.L {
+				if err := rt.assign(la.AssembleValue(), c, donorChild(donor, "", i, false)); err != nil {
 					return err
 				}
 			}
@@ -131,7 +174,7 @@ func (rt *router) assign(na datamodel.NodeAssembler, v Val) error {
 					return err
 				}
 			}
-			if err := rt.assign(va, e.V); err != nil {
+			if err := rt.assign(va, e.V, donorChild(donor, e.K, 0, true)); err != nil {
 				return err
 			}
 		}
@@ -166,7 +209,23 @@ func BuildRouted(proto datamodel.NodePrototype, v Val, routes Routes, reuse bool
 		nb.Reset()
 	}
 	rt := &router{r: routes}
-	if err := rt.assign(nb, v); err != nil {
+	if err := rt.assign(nb, v, nil); err != nil {
+		return nil, err
+	}
+	return nb.Build(), nil
+}
+
+// BuildRoutedDonor is BuildRouted with a donor: a node of the same value (at the level being built)
+// whose sub-nodes are what route 10 assigns.
+func BuildRoutedDonor(proto datamodel.NodePrototype, v Val, routes Routes, donor datamodel.Node) (n datamodel.Node, err error) {
+	defer func() {
+		if x := recover(); x != nil {
+			err = fmt.Errorf("panic: %v", x)
+		}
+	}()
+	nb := proto.NewBuilder()
+	rt := &router{r: routes, donor: true}
+	if err := rt.assign(nb, v, donor); err != nil {
 		return nil, err
 	}
 	return nb.Build(), nil
